@@ -35,13 +35,16 @@ NumKindSeq == <<"int8", "int16", "int32", "int64", "int", "uint8", "uint16", "ui
 NK == 12
 IntKindIdx == 1..10
 KI(k) == CHOOSE i \in 1..NK : NumKindSeq[i] = k
-\* kinds taken by a family (salt): all of them in tier "t", three seeded ones otherwise
-KSel(salt, n) == IF Tier = "t" THEN 1..NK ELSE { ((Seed * 5 + salt * 3 + j * 7) % NK) + 1 : j \in 0..(n - 1) }
-ISel(salt, n) == IF Tier = "t" THEN IntKindIdx ELSE { ((Seed * 3 + salt * 7 + j * 3) % 10) + 1 : j \in 0..(n - 1) }
+Full == Tier \in {"t", "all"}
+\* kinds taken by a family (salt): all of them in tiers "t" and "all", three seeded ones otherwise
+KSel(salt, n) == IF Full THEN 1..NK ELSE { ((Seed * 5 + salt * 3 + j * 7) % NK) + 1 : j \in 0..(n - 1) }
+ISel(salt, n) == IF Full THEN IntKindIdx ELSE { ((Seed * 3 + salt * 7 + j * 3) % 10) + 1 : j \in 0..(n - 1) }
 \* one of 1..n, seeded
 Pick(a, b, n) == ((Seed * 31 + a * 7 + b * 13) % n) + 1
 MinOf(S) == CHOOSE x \in S : \A y \in S : x <= y
-Thin(h, d) == Tier = "t" \/ (h + Seed) % d = 0
+Thin(h, d) == Full \/ (h + Seed) % d = 0
+\* tier "t" takes a seeded quarter of the (very large) family "acc"; tier "all" (used to enumerate known findings) takes everything
+ThinT(h, dq, dt) == Tier = "all" \/ (h + Seed) % (IF Tier = "t" THEN dt ELSE dq) = 0
 
 \* value classes of a kind: 1 "3", 2 max, 3 min (signed) / max-1 (unsigned), 4 "100", 5 "1", 6 "0"
 BigK(k) == k \in {"uint64", "uint"}                  \* literals above MaxInt64 are not used (Ego reads them as floats)
@@ -96,7 +99,7 @@ FamAcc(p) ==
 AccIdx == { p \in [fam : {"acc"}, k : KSel(1, 3), o : 1..3, f : 1..4, r : 1..9, v : {1, 2, 3, 4}, l : 1..4, d : 1..2] :
               /\ (p.f = 4 => p.r = 1 /\ p.o # 3)
               /\ (p.l = 3 => p.r = 8 /\ p.f # 4)
-              /\ Thin(p.k + p.o * 3 + p.f * 5 + p.r * 7 + p.v * 11 + p.l * 13 + p.d * 17, IF Tier = "t" THEN 1 ELSE 23) }
+              /\ ThinT(p.k + p.o * 3 + p.f * 5 + p.r * 7 + p.v * 11 + p.l * 13 + p.d * 17, 23, 4) }
 
 \* ------------------------------------------------------------------ family "expr": the expression boundary (a new variable takes the result)
 \* p: k kind, o op, r constant, v value class
@@ -106,7 +109,7 @@ FamExpr(p) ==
            SDef("q", Bin(AccOps[p.o], ConstE[p.r], V("a"))), PrA("q", "q"),
            SIf(Bin(">", Bin(AccOps[p.o], V("a"), ConstE[p.r]), V("a")), <<SPr(<<PL("grew")>>)>>, <<SPr(<<PL("not")>>)>>)>>)
 ExprIdx == { p \in [fam : {"expr"}, k : KSel(15, 3), o : 1..3, r : 1..NConst, v : {1, 2, 4}] :
-               Thin(p.k + p.o * 3 + p.r * 5 + p.v * 7, IF Tier = "t" THEN 1 ELSE 4) }
+               Thin(p.k + p.o * 3 + p.r * 5 + p.v * 7, IF Full THEN 1 ELSE 4) }
 
 \* ------------------------------------------------------------------ family "cmp": comparison of a typed variable with a constant
 \* p: k kind, o (1 < 2 <= 3 != 4 > 5 >=), c constant form (1 integer literal, 2 float literal x.0, 3 lossy x.5), s step (1 n = n + 1, 2 n++, 3 n += 1)
@@ -122,7 +125,7 @@ FamCmp(p) ==
             SForC("", Bin(op, V("n"), ce), <<step, SInc(V("cnt"), "+"), SIf1(Bin(">=", V("cnt"), Lit(6)), <<SBrk("")>>)>>),
             SIf(Bin("==", V("n"), Lit(4)), <<SPr(<<PL("eq")>>)>>, <<SPr(<<PL("ne")>>)>>),
             SPr(<<PL("n"), PV(V("n")), PT(V("n")), PV(V("cnt"))>>) >>)
-CmpIdx == { p \in [fam : {"cmp"}, k : KSel(2, 3), o : 1..5, c : 1..3, s : 1..3] : Thin(p.k + p.o * 3 + p.c * 5 + p.s * 7, IF Tier = "t" THEN 1 ELSE 4) }
+CmpIdx == { p \in [fam : {"cmp"}, k : KSel(2, 3), o : 1..5, c : 1..3, s : 1..3] : Thin(p.k + p.o * 3 + p.c * 5 + p.s * 7, IF Full THEN 1 ELSE 4) }
 
 \* ------------------------------------------------------------------ family "call": the argument and return boundaries
 \* p: pk parameter kind, rk result kind, a argument (1 const 4, 2 const 2.5, 3 const 300, 4 variable of kind ak), ak,
@@ -144,9 +147,9 @@ FamCall(p) ==
          \o <<SPr(<<PL("start")>>), SDef("r", Call(V("f"), <<arg>>)), PrA("r", "r")>>)
 Oth(k, salt) == (((k - 1) + 1 + ((Seed + salt) % (NK - 1))) % NK) + 1        \* another kind than k (seeded)
 CallIdx == { p \in { [fam |-> "call", pk |-> k, rk |-> IF rs = 0 THEN k ELSE Oth(k, rs), a |-> a, ak |-> IF as = 0 THEN k ELSE Oth(k, as + 2), b |-> b] :
-                       k \in KSel(3, 3), rs \in 0..(IF Tier = "t" THEN 3 ELSE 1), a \in 1..4, as \in 0..(IF Tier = "t" THEN 3 ELSE 1), b \in 1..6 } :
+                       k \in KSel(3, 3), rs \in 0..(IF Full THEN 3 ELSE 1), a \in 1..4, as \in 0..(IF Full THEN 3 ELSE 1), b \in 1..6 } :
                /\ (p.a # 4 => p.ak = p.pk)
-               /\ Thin(p.pk + p.rk * 3 + p.a * 5 + p.ak * 7 + p.b * 11, IF Tier = "t" THEN 1 ELSE 3) }
+               /\ Thin(p.pk + p.rk * 3 + p.a * 5 + p.ak * 7 + p.b * 11, IF Full THEN 1 ELSE 3) }
 
 \* ------------------------------------------------------------------ family "asgb": the assignment boundary
 \* p: k kind of the variable, a (1..NConst constant, 8 variable of kind ak), ak, w (1 x = e, 2 var y K = e)
@@ -159,9 +162,9 @@ FamAsgb(p) ==
                               SAsg(V("x"), Bin("+", V("x"), V("x"))), PrA("x", "x")>>
              ELSE <<SPr(<<PL("start")>>), SVar("y", T(k), e), PrA("y", "y")>>))
 AsgbIdx == { p \in { [fam |-> "asgb", k |-> k, a |-> a, ak |-> IF as = 0 THEN k ELSE Oth(k, as + 5), w |-> w] :
-                       k \in KSel(6, 3), a \in 1..8, as \in 0..(IF Tier = "t" THEN 4 ELSE 2), w \in 1..2 } :
+                       k \in KSel(6, 3), a \in 1..8, as \in 0..(IF Full THEN 4 ELSE 2), w \in 1..2 } :
                /\ (p.a # 8 => p.ak = p.k)
-               /\ Thin(p.k + p.a * 3 + p.ak * 5 + p.w * 7, IF Tier = "t" THEN 1 ELSE 2) }
+               /\ Thin(p.k + p.a * 3 + p.ak * 5 + p.w * 7, IF Full THEN 1 ELSE 2) }
 
 \* ------------------------------------------------------------------ family "clos": closures
 \* p: k kind, s shape
@@ -312,7 +315,7 @@ FamLoops(p) ==
                  <<SIf1(Bin("&&", Bin("==", V("i"), Lit(p.i0)), Bin("==", V("j"), Lit(p.j0))), <<act>>), SPr(<<PV(V("i")), PV(V("j"))>>)>>)
   IN  P0(MkLoop(p.fo, IF p.a >= 3 THEN "outer" ELSE "", "i", 3, inner \o <<SPr(<<PL("end"), PV(V("i"))>>)>>) \o <<SPr(<<PL("done")>>)>>)
 LoopsIdx == { p \in [fam : {"loops"}, a : 1..4, i0 : 0..1, j0 : 0..2, fo : 1..3, fi : 1..3] :
-                Thin(p.a + p.i0 * 3 + p.j0 * 5 + p.fo * 7 + p.fi * 11, IF Tier = "t" THEN 1 ELSE 6) }
+                Thin(p.a + p.i0 * 3 + p.j0 * 5 + p.fo * 7 + p.fi * 11, IF Full THEN 1 ELSE 6) }
 
 \* ------------------------------------------------------------------ family "multi": variadics, multiple returns, parallel assignment
 FamMulti(p) ==
